@@ -282,6 +282,9 @@ Notation addc := (@add_cols M nu).
 Lemma size_dvl (ic : incidence) (v : 'cV[F]_(nv_of ic)) : size (dvl ic v) = size ic.
 Proof. by elim: ic v => [|c ic IH] v //=; rewrite IH. Qed.
 
+Lemma size_addc (v1 v2 : seq 'cV[F]_nu) : size v1 = size v2 -> size (addc v1 v2) = size v1.
+Proof. by elim: v1 v2 => [|x v1 IH] [|y v2] //= [/IH ->]. Qed.
+
 Lemma isum_add t i (v1 v2 : seq 'cV[F]_nu) : size v1 = size v2 ->
   isum t i (addc v1 v2) = isum t i v1 + isum t i v2.
 Proof.
@@ -423,6 +426,145 @@ move=> sz; have := run_size; have := run_vs; case Ec: cols => [|c0 cs] Hv Hs.
 have [-> _] := chain_paths run_chain; rewrite col_mxKu col_mxKd Hv //.
 apply: flat_path_ext => k.
 by rewrite /ant_impact isum_add ?size_dvl // gen_R_mul.
+Qed.
+
+
+(* pairs (simulated column, its result) *)
+Fixpoint pall (R : ccol -> sper -> Prop) (cs : seq ccol) (l : seq sper) : Prop :=
+  match cs, l with
+  | c :: cs', x :: l' => R c x /\ pall R cs' l'
+  | [::], [::] => True
+  | _, _ => False
+  end.
+
+Lemma cchain_pall (R : nat -> 'cV[F]_na -> ccol -> sper -> Prop) (R' : ccol -> sper -> Prop) t (ap : 'cV[F]_na) cs l :
+  (forall t a c x, R t a c x -> R' c x) -> cchain R t ap cs l -> pall R' cs l.
+Proof. by move=> h; elim: cs l t ap => [|c cs IH] [|x l] t ap //= [/h ? /IH ?]. Qed.
+
+(* every exogenized cell carries its input value *)
+Theorem run_hits : all_unit run_fs ->
+  pall (fun c x => forall k : 'I_ncur, nth false (c_mask c) k -> ocurr x k ord0 = c_target c k ord0) cols run_l.
+Proof.
+move=> uF; have := cond_hit_run (init_mse_sym std_v) uF; rewrite -/run_fs -run_lE.
+apply: cchain_pall => t a c x /mc_sel_eqP h k /h /rowP/(_ ord0).
+by rewrite !mxE.
+Qed.
+
+(* ... and that value is the variable's entry of the transition vector *)
+Lemma ocurr_entry x (k : 'I_ncur) (r : 'I_n) : nth 0%N curr k = r -> ocurr x k ord0 = oxi x r ord0.
+Proof. by move=> E; rewrite /out_curr /= (mc_rows_entry _ _ E). Qed.
+
+Lemma dvl_off (ic : incidence) (v : 'cV[F]_(nv_of ic)) k (j : 'I_nu) :
+  ~~ nth false (nth [::] ic k) j -> nth 0 (dvl ic v) k j ord0 = 0.
+Proof.
+elim: ic v k => [|c ic IH] v [|k] //=; rewrite ?mxE //; last exact: IH.
+move=> cj; rewrite big1 // => q _.
+rewrite [X in X * _](_ : _ = 0) ?mul0r // mxE mc_selE mxE.
+case E: (sel_ord c nu q) => [r|] //; rewrite trmx1 mxE.
+case: eqP => // rj; move: (sel_ord_set E); rewrite rj.
+by rewrite (negbTE cj).
+Qed.
+
+Lemma nth_addc (v1 v2 : seq 'cV[F]_nu) k : size v1 = size v2 ->
+  nth 0 (addc v1 v2) k = nth 0 v1 k + nth 0 v2 k.
+Proof.
+elim: v1 v2 k => [|x v1 IH] [|y v2] [|k] //=; rewrite ?addr0 //.
+by case=> /IH.
+Qed.
+
+(* only endogenized shocks at endogenized dates differ from their inputs *)
+Theorem run_changes_only_endogenized : size vs = size inc ->
+  pall (fun c x => (forall i : 'I_nu, nth 0 (c_std_u c) i = 0 -> out_u x i ord0 = c_u0 c i ord0)
+                   /\ s_w (so x) = c_w0 c) cols run_l
+  /\ (forall k (j : 'I_nu), ~~ nth false (nth [::] inc k) j ->
+        nth 0 (ovs run_l) k j ord0 = nth 0 vs k j ord0).
+Proof.
+move=> sz; split.
+  by apply: cchain_pall run_chain => t a c x [].
+move=> k j off; have := run_size; have := run_vs; case Ec: cols => [|c0 cs] Hv Hs.
+  by case: run_l Hs.
+by rewrite Hv // nth_addc ?size_dvl // mxE dvl_off // addr0.
+Qed.
+
+
+(* ---- an exactly identified swap inverts a simulation ---- *)
+
+Fixpoint pall2 A (R : ccol -> A -> Prop) (cs : seq ccol) (l : seq A) : Prop :=
+  match cs, l with
+  | c :: cs', y :: l' => R c y /\ pall2 R cs' l'
+  | [::], [::] => True
+  | _, _ => False
+  end.
+
+Lemma pall_sub k (g : sper -> 'cV[F]_k) (R1 : ccol -> sper -> Prop) (R2 R3 : ccol -> 'cV[F]_k -> Prop) cs l l2 :
+  (forall c x y, R1 c x -> R2 c y -> R3 c (g x - y)) ->
+  pall R1 cs l -> pall2 R2 cs l2 -> pall2 R3 cs (subc [seq g x | x <- l] l2).
+Proof.
+move=> h; elim: cs l l2 => [|c cs IH] [|x l] [|y l2] //= [r1 p1] [r2 p2].
+by split; [exact: h | exact: IH].
+Qed.
+
+Lemma subc_eq0 k (l1 l2 : seq 'cV[F]_k) : size l1 = size l2 ->
+  (forall d, List.In d (subc l1 l2) -> d = 0) -> l1 = l2.
+Proof.
+elim: l1 l2 => [|x l1 IH] [|y l2] //= [sz] h.
+rewrite (IH l2 sz); last by move=> d hd; apply: h; right.
+by congr (_ :: _); apply/subr0_eq/h; left.
+Qed.
+
+(* a shock increment that lives on the endogenized_unanticipated cells of the column *)
+Definition off_cells c (u : 'cV[F]_nu) : Prop := forall i : 'I_nu, nth 0 (c_std_u c) i = 0 -> u i ord0 = 0.
+(* the exogenized cells of the column, read off a transition vector *)
+Definition at_targets c (xi : 'cV[F]_n) : 'cV[F]_(count_true (c_mask c)) := mc_sel (c_mask c) (mc_rows curr xi).
+
+(* "the impact matrix from the endogenized cells to the exogenized cells is non-singular": the linear map
+   (increments of the endogenized unanticipated shocks, increments w of the endogenized anticipated shocks)
+   |-> (response of the exogenized cells) has a trivial kernel; the response is the homogeneous first-order
+   recursion started at zero *)
+Definition impact_nonsingular : Prop :=
+  forall (dus : seq 'cV[F]_nu) (w : 'cV[F]_nv), size dus = size cols ->
+    pall2 off_cells cols dus ->
+    pall2 (fun c (dxi : 'cV[F]_n) => at_targets c dxi = 0) cols (lin_path (fun t => isum t 0 (dvl inc w)) 0 0 dus) ->
+    (forall du, List.In du dus -> du = 0) /\ w = 0.
+
+Theorem run_inverts_swap (ustar : seq 'cV[F]_nu) (vstar : 'cV[F]_nv) :
+  size vs = size inc -> size cols = size inc -> size ustar = size cols ->
+  all_unit run_fs -> impact_nonsingular ->
+  pall2 (fun c (u : 'cV[F]_nu) => forall i : 'I_nu, nth 0 (c_std_u c) i = 0 -> u i ord0 = c_u0 c i ord0) cols ustar ->
+  let vsstar := addc vs (dvl inc vstar) in
+  let xistar := flat_path (aimp vsstar) 0 a0 ustar in
+  pall2 (fun c (xi : 'cV[F]_n) => mc_sel (c_mask c) (c_target c) = at_targets c xi) cols xistar ->
+  [/\ [seq out_u x | x <- run_l] = ustar, ovs run_l = vsstar & [seq oxi x | x <- run_l] = xistar].
+Proof.
+move=> szv szc szu uF ns Hu vsstar xistar Ht.
+have Evs : ovs run_l = addc vs (dvl inc vhat).
+  have := run_size; have := run_vs; case Ec: cols => [|c0 cs] Hv Hs; last exact: Hv.
+  have v0 : vs = [::] by apply: size0nil; rewrite szv -szc Ec.
+  by case: run_l Hs => // _; rewrite /out_vs /= v0.
+have Esim := run_is_simulation szv.
+have [Hk _] := run_changes_only_endogenized szv.
+have Hh : pall (fun c x => mc_sel (c_mask c) (mc_rows curr (oxi x)) = mc_sel (c_mask c) (c_target c)) cols run_l.
+  have := cond_hit_run (init_mse_sym std_v) uF; rewrite -/run_fs -run_lE.
+  by apply: cchain_pall => t a c x.
+set us_hat := [seq out_u x | x <- run_l] in Esim *.
+set xis_hat := [seq oxi x | x <- run_l] in Esim *.
+have szh : size us_hat = size ustar by rewrite size_map run_size szu.
+(* the difference between the result and the driving simulation is a homogeneous response *)
+have Ed : subc xis_hat xistar
+          = lin_path (fun t => isum t 0 (dvl inc (vhat - vstar))) 0 0 (subc us_hat ustar).
+  rewrite Esim Evs /xistar flat_path_sub // subrr; apply: lin_path_ext => k.
+  by rewrite /ant_impact -isum_sub ?size_addc ?size_dvl // subc_addc_l ?size_dvl // dvl_sub.
+have [H0 Hw] : (forall du, List.In du (subc us_hat ustar) -> du = 0) /\ vhat - vstar = 0.
+  apply: ns.
+  - have: size us_hat = size ustar := szh.
+    by rewrite -szu; elim: (us_hat) (ustar) => [|? ? IH] [|? ?] //= [/IH ->].
+  - apply: (pall_sub _ Hk Hu) => c x y [hx _] hy i li.
+    by rewrite mxE [X in _ + X]mxE hx // hy // subrr.
+  - rewrite -Ed; apply: (pall_sub _ Hh Ht) => c x y hx hy.
+    by rewrite /at_targets mc_rows_sub mc_sel_sub hx hy subrr.
+have Eu : us_hat = ustar := subc_eq0 szh H0.
+have Ev : vhat = vstar := subr0_eq Hw.
+by split; rewrite // ?Evs ?Ev // Esim Evs Ev Eu.
 Qed.
 
 End Run.
